@@ -64,3 +64,118 @@ scon_guard::next () const
 {
   return m_op->next (m_sc);
 }
+
+#ifdef DWGREP_VERIF
+// Verification hooks (see /verif/DESIGN.md): a shadow map of live states
+// with checks of the state lifecycle, and an optional event trace.
+#include <cstdio>
+#include <cstdlib>
+#include <cstring>
+#include <unistd.h>
+#include <fcntl.h>
+
+namespace
+{
+  int
+  verif_trace_fd ()
+  {
+    static int fd = -2;
+    if (fd == -2)
+      {
+	char const *fn = getenv ("DWGREP_VERIF_TRACE");
+	fd = fn != nullptr && *fn != 0
+	  ? open (fn, O_WRONLY | O_CREAT | O_APPEND, 0644) : -1;
+      }
+    return fd;
+  }
+
+  bool
+  verif_trace_get ()
+  {
+    static int on = -1;
+    if (on == -1)
+      on = getenv ("DWGREP_VERIF_TRACE_GET") != nullptr;
+    return on;
+  }
+
+  unsigned long verif_seq = 0;
+
+  void
+  verif_emit (void const *sc, char const *what, size_t off, size_t sz,
+	      char const *ty)
+  {
+    int fd = verif_trace_fd ();
+    if (fd < 0)
+      return;
+    char buf[512];
+    int n = snprintf (buf, sizeof buf,
+		      "{\"seq\":%lu,\"e\":\"%s\",\"sc\":\"%p\",\"off\":%zu,"
+		      "\"sz\":%zu,\"ty\":\"%s\"}\n",
+		      ++verif_seq, what, sc, off, sz, ty);
+    if (n > 0)
+      (void) !write (fd, buf, n);
+  }
+
+  void
+  verif_fail (void const *sc, char const *what, size_t off, size_t sz,
+	      char const *ty)
+  {
+    verif_emit (sc, "violation", off, sz, what);
+    fprintf (stderr, "DWGREP_VERIF scon: %s (offset %zu, size %zu, type %s)\n",
+	     what, off, sz, ty);
+    abort ();
+  }
+}
+
+void
+scon::verif_con (size_t off, size_t sz, char const *ty)
+{
+  if (off + sz > m_buf.size ())
+    verif_fail (this, "state constructed outside the buffer", off, sz, ty);
+  // No live state may overlap the new one.
+  auto it = m_verif_live.upper_bound (off);
+  if (it != m_verif_live.end () && it->first < off + sz)
+    verif_fail (this, "state constructed over a live state", off, sz, ty);
+  if (it != m_verif_live.begin ())
+    {
+      --it;
+      if (it->first + it->second > off)
+	verif_fail (this, it->first == off
+		    ? "state constructed twice"
+		    : "state constructed over a live state", off, sz, ty);
+    }
+  m_verif_live[off] = sz;
+  verif_emit (this, "con", off, sz, ty);
+}
+
+void
+scon::verif_des (size_t off, size_t sz, char const *ty)
+{
+  auto it = m_verif_live.find (off);
+  if (it == m_verif_live.end () || it->second != sz)
+    verif_fail (this, "destruction of a state that is not constructed",
+		off, sz, ty);
+  m_verif_live.erase (it);
+  verif_emit (this, "des", off, sz, ty);
+}
+
+void
+scon::verif_get (size_t off, size_t sz, char const *ty)
+{
+  auto it = m_verif_live.find (off);
+  if (it == m_verif_live.end () || it->second != sz)
+    verif_fail (this, "access to a state that is not constructed",
+		off, sz, ty);
+  if (verif_trace_get ())
+    verif_emit (this, "get", off, sz, ty);
+}
+
+scon::~scon ()
+{
+  if (! m_verif_live.empty ())
+    verif_fail (this, "state buffer destroyed with live states",
+		m_verif_live.begin ()->first,
+		m_verif_live.begin ()->second, "?");
+  verif_emit (this, "dtor", 0, m_buf.size (), "scon");
+}
+#endif
